@@ -248,6 +248,33 @@ for rnd in range(6 * SCALE):
         if (r[0] == "ok") != want:
             rep.violation("impl-vs-spec", f"load_skr on a previous SKR ({name}): {'loaded' if r[0] == 'ok' else 'refused ' + r[2]}, expected {'load' if want else 'refusal'}",
                           {"kind": name, "xml": ksrxml.render_skr(doc), "num_bundles": cnt})
+# ---- file to verdict: a previous SKR that publishes, under the identifier of our KSK, both our key and a foreign key, and is signed by the foreign one.
+# Whoever made those signatures is not on the token: the KSR must not be processed (refusing the file or refusing the chain are both fine).
+from cryptography.hazmat.primitives.asymmetric import rsa as _rsa
+for v in range(8 * SCALE):
+    zskpol = ksrxml.default_zsk_policy()
+    n = R.choice([2, 3])
+    skr = prev_skr(n, SCHEMA1, zskpol)
+    ours = KSKS["ksk_current"]
+    foreign = ksrxml.mk_key(_rsa.generate_private_key(65537, 1024), alg=8, flags=257, ident=ours["id"])
+    doc = copy.deepcopy({**skr, "bundles": [dict(b) for b in skr["bundles"]]})
+    for b in doc["bundles"]:
+        b["keys"] = list(b["keys"]) + [dict(foreign, ttl=172800)]
+        b["sigs"] = [ksrxml.mk_sig(dict(foreign, ttl=172800), b["keys"], b["inc"], b["exp"])]
+    path = os.path.join(tmpd, "prev-twin.xml")
+    with open(path, "w") as f:
+        f.write(ksrxml.render_skr(doc))
+    loader_cases += 1
+    hist["file-two-keys-one-identifier"] = hist.get("file-two-keys-one-identifier", 0) + 1
+    r = vlib.run_impl(load_skr, path, ResponsePolicy(num_bundles=n))
+    if r[0] != "ok":
+        continue
+    table = {ours["id"]: ("found", base64.b64encode(ours["pub"]))}
+    r2 = vlib.run_impl(check_skr_and_ksr, skrgen.k_request(successor(skr, zskpol)), r[1], RequestPolicy(check_chain_keys=True, check_chain_keys_in_hsm=True, check_chain_overlap=True), [FakeModule(table)])
+    if r2[0] == "ok":
+        rep.violation("impl-vs-spec", f"a KSR was chained to a previous SKR whose last bundle is signed by a key that is not on the token (published under the identifier "
+                      f"{ours['id']!r} next to our own key); the token holds only our key",
+                      {"kind": "file-two-keys-one-identifier", "xml": ksrxml.render_skr(doc), "num_bundles": n, "token": {ours["id"]: base64.b64encode(ours["pub"]).decode()[:24]}})
 import shutil
 
 shutil.rmtree(tmpd, ignore_errors=True)
